@@ -3,8 +3,8 @@ package c07
 // Message level of C07: the same keeper operations delivered as a transaction
 // would deliver them -- ValidateBasic of the swap message, then the real msg
 // server (deadline gate, then the keeper call) at a generated block time.
-// Model: tx_step of Model/Swap.v; histories are rendered as [mhistory] terms
-// and evaluated by [mismatches_m].
+// Model: tx_step of Model/Swap.v under the current fee (VTx of Model/SwapGov.v); histories are
+// rendered as [vhistory] terms and evaluated by [mismatches_v].
 
 import (
 	. "kavaverif/lib"
@@ -21,7 +21,7 @@ import (
 
 // execTx delivers op as a message at block time (op.T seconds + op.TN nanoseconds).
 func (w *kWorld) execTx(op kOp) (Class, error) {
-	if op.Kind == "banksend" {
+	if op.Kind == "banksend" || op.Kind == "setfee" {
 		return w.exec(op)
 	}
 	ctx0 := w.ctx.WithBlockTime(time.Unix(op.T, op.TN).UTC())
@@ -96,7 +96,7 @@ func txTimes(r *Rng, now *int64, op *kOp) {
 
 // txValid states ValidateBasic of the four messages on the operation's fields.
 func txValid(op kOp) bool {
-	if op.Kind == "banksend" {
+	if op.Kind == "banksend" || op.Kind == "setfee" {
 		return true
 	}
 	if bigS(op.A1).Sign() <= 0 || bigS(op.A2).Sign() <= 0 || op.D1 == op.D2 || op.Deadline <= 0 {
@@ -110,7 +110,7 @@ func txValid(op kOp) bool {
 
 // kMonitorTx states the message-level rules on the implementation, then the keeper-level property.
 func kMonitorTx(w *kWorld, op kOp, cls Class, err error, before, after *kSnap, trip *kTrip, mark func(string)) (pred, sig, detail string) {
-	if op.Kind != "banksend" {
+	if op.Kind != "banksend" && op.Kind != "setfee" {
 		exceeded := op.Deadline <= op.T // blockTime.Unix() >= deadline
 		switch {
 		case op.Deadline == op.T-1:
@@ -158,8 +158,11 @@ func kMonitorTx(w *kWorld, op kOp, cls Class, err error, before, after *kSnap, t
 	return kMonitor(w, op, cls, err, before, after, trip)
 }
 
-func kCoqMsgStep(op kOp, obs string) string {
-	return fmt.Sprintf("(%s, mkMsg (%s) %s,\n    %s)", Zi(op.T), kCoqOp(op), Zi(op.Deadline), obs)
+func kCoqMsgStep(op kOp, obs string, fee *big.Int) string {
+	if op.Kind == "setfee" {
+		return kCoqKeeperStep(op, obs, fee)
+	}
+	return fmt.Sprintf("(VTx %s (mkMsg (%s) %s),\n    %s, %s)", Zi(op.T), kCoqOp(op), Zi(op.Deadline), obs, Z(fee))
 }
 
 var kTxSplits = []string{
